@@ -1,20 +1,27 @@
 /* C08 --- uncondition variable: single-slot SPSC hand-off following the documented protocol
  * (waiter announces itself with a CAS on the data word, the other side clears the announcement and signals). */
 #include "hcommon.h"
-typedef struct { int n, W, K, order; } prog_t;
+typedef struct { int n, W, K, order, relay; } prog_t;
 #define MAXP 64
 static prog_t P[2][MAXP]; static int NP[2];
-static void add(int tier, int n, int order, int W, int K) { if (NP[tier] < MAXP) { prog_t * p = &P[tier][NP[tier]++]; p->n = n; p->order = order; p->W = W; p->K = K; } }
+static void add(int tier, int n, int order, int W, int K) { if (NP[tier] < MAXP) { prog_t * p = &P[tier][NP[tier]++]; p->n = n; p->order = order; p->W = W; p->K = K; p->relay = 0; } }
 static void build(void) {
   static int built; if (built) return; built = 1;
   for (int tier = 0; tier < 2; tier++) for (int W = 1; W <= (tier ? 3 : 2); W++) for (int n = 1; n <= 3; n++) for (int o = 0; o < 2; o++) {
     int K = tier ? 3 : 2; if (n == 3) K = tier ? 2 : 1; if (W == 3) K = 2; if (W == 3 && n == 3) K = 1;
     add(tier, n, o, W, K);
   }
+  /* relay: one signaler, two waiters taking turns on the same variable (a new rendezvous may start while the
+     previous waiter has been handed back to the scheduler but has not run yet) */
+  for (int tier = 0; tier < 2; tier++) for (int W = 1; W <= (tier ? 3 : 2); W++) for (int n = 2; n <= (tier ? 4 : 3); n++) {
+    if (NP[tier] < MAXP) { prog_t * p = &P[tier][NP[tier]++]; p->n = n; p->order = 0; p->W = W; p->K = (n == 2 ? (tier ? 3 : 2) : (tier ? 2 : 1)); if (W == 3 && p->K > 2) p->K = 2; p->relay = 1; }
+  }
 }
 static int nprogs(int tier) { build(); return NP[tier]; }
 static void config(int tier, int prog, int * W, int * K) { build(); *W = P[tier][prog].W; *K = P[tier][prog].K; }
-static void describe(int tier, int prog, char * b, size_t n) { build(); prog_t * p = &P[tier][prog]; snprintf(b, n, "uncond SPSC hand-off of %d items, %s created first", p->n, p->order ? "consumer" : "producer"); }
+static void describe(int tier, int prog, char * b, size_t n) { build(); prog_t * p = &P[tier][prog];
+  if (p->relay) snprintf(b, n, "uncond relay: one signaler, two alternating waiters, %d rendezvous on one variable", p->n);
+  else snprintf(b, n, "uncond SPSC hand-off of %d items, %s created first", p->n, p->order ? "consumer" : "producer"); }
 enum { ST_FULL = 1, ST_SLEEPING = 2 };
 static prog_t * cur; static volatile long cell; static myth_uncond_t u;
 static volatile int waits, signals, resumed;
@@ -44,9 +51,48 @@ static long get(void) {
 }
 static void * producer(void * a) { (void)a; for (int i = 1; i <= cur->n; i++) put(i); return 0; }
 static void * consumer(void * a) { (void)a; for (int i = 1; i <= cur->n; i++) { long x = get(); MV_CHECK(x == i, "consumer received %ld instead of %d (lost or duplicated hand-off)", x, i); } return (void *)1; }
+/* relay: rendezvous r uses flag word rv[r]: 0 nobody yet, 1 posted by the signaler, 2 the waiter sleeps */
+static volatile long rv[6]; static volatile int rv_resumed[6], rv_signalled[6], rv_done[6];
+static void * relay_waiter(void * a) {
+  int me = (int)(long)a;
+  for (int r = me; r < cur->n; r += 2) {
+    /* only one thread may block on the variable at a time: wait until the signaler is through with rendezvous r-1
+       (its waiter may have been handed back to the scheduler without having run yet) */
+    while (r > 0 && !rv_done[r - 1]) mv_wait_until_changed(&rv_done[r - 1], sizeof(int));
+    mv_point(&rv[r], sizeof(long));
+    if (__sync_bool_compare_and_swap(&rv[r], 0, 2)) {
+      myth_uncond_wait(&u);
+      MV_CHECK(rv_signalled[r], "waiter of rendezvous %d resumed although its signal was never issued", r);
+      mv_cover(0);
+    }
+    rv_resumed[r]++;
+    MV_CHECK(rv_resumed[r] == 1, "waiter of rendezvous %d resumed %d times", r, rv_resumed[r]);
+  }
+  return 0;
+}
+static void * relay_signaler(void * a) {
+  (void)a;
+  for (int r = 0; r < cur->n; r++) {
+    mv_point(&rv[r], sizeof(long));
+    long o = __sync_val_compare_and_swap(&rv[r], 0, 1);
+    if (o == 2) { mv_point(&rv_signalled[r], sizeof(int)); rv_signalled[r] = 1; mv_cover(1); mv_cover(2); myth_uncond_signal(&u); }
+    mv_point(&rv_done[r], sizeof(int)); rv_done[r] = 1;
+  }
+  return 0;
+}
+static void run_relay(void) {
+  myth_uncond_init(&u);
+  myth_thread_t w0 = myth_create(relay_waiter, (void *)0), w1 = myth_create(relay_waiter, (void *)1), sg = myth_create(relay_signaler, 0);
+  myth_join(sg, 0); myth_join(w0, 0); myth_join(w1, 0);
+  for (int r = 0; r < cur->n; r++) MV_CHECK(rv_resumed[r] == 1, "rendezvous %d: waiter passed %d times", r, rv_resumed[r]);
+  MV_CHECK(u.th == 0, "uncondition variable still holds a thread at the end");
+  mv_obs("relay n=%d", cur->n);
+  mv_finish();
+}
 static void run(int tier, int prog) {
   build(); cur = &P[tier][prog];
   mv_start(cur->W);
+  if (cur->relay) { run_relay(); return; }
   myth_uncond_init(&u);
   myth_thread_t a, b; void * r = 0;
   if (cur->order) { b = myth_create(consumer, 0); a = myth_create(producer, 0); } else { a = myth_create(producer, 0); b = myth_create(consumer, 0); }
